@@ -87,3 +87,34 @@ def any_exc(vals):
 
 def is_date(part, axis):
     return str(part.dimension_types[axis]).endswith("CAT_DATE")
+
+
+def dominate(case, rng):
+    """DOMINANT CELL: one non-zero cell of the payload gets 2^20..2^24 further (weighted and unweighted)
+    respondents, so that some proportion is 1 - O(1e-6) and every other one of its row / column / table
+    is O(1e-6): far outside the 1e-9 comparison tolerance, inside numpy's default `isclose` window.
+    Marks the case `dominant`; returns False when the payload has no positive cell."""
+    res = case["response"]["result"]
+    counts = res["counts"]
+    data = res.get("measures", {}).get("count", {}).get("data")
+    idxs = [i for i, c in enumerate(counts) if isinstance(c, (int, float)) and c > 0
+            and (data is None or (isinstance(data[i], (int, float)) and data[i] > 0))]
+    if not idxs:
+        return False
+    i = rng.choice(idxs)
+    big = 2 ** rng.randint(20, 24)
+    counts[i] = counts[i] + big
+    if data is not None:
+        data[i] = data[i] + big
+    res["n"] = res.get("n", 0) + big
+    case["dominant"] = True
+    return True
+
+
+def dominate_some(cases, seed, p=0.125):
+    """apply [dominate] to about one case in eight (own PRNG, so the main stream is unchanged)"""
+    import random
+    drng = random.Random(seed * 7919 + 13)
+    for case in cases:
+        if drng.random() < p and not case.get("valid_counts"):
+            dominate(case, drng)
